@@ -93,6 +93,7 @@ class Printer:
         self.dropped = []               # dropped statements (evidence)
         self.loops = 0
         self.ret_ctype = 'void'
+        self.ret_is_ref = False         # function returns a C++ reference: `return x;` prints as `return &x;`
         self.may_throw = False
         self.protos = {}
         self.tmp = 0
@@ -483,7 +484,7 @@ class Printer:
         if k == 'ReturnStmt':
             if not inner:
                 return f'{p}return;\n'
-            e = self.expr(inner[0])
+            e = self.addr(inner[0]) if self.ret_is_ref else self.expr(inner[0])
             if getattr(self, 'pending_throw', False):
                 self.pending_throw = False
                 self.tmp += 1
@@ -574,6 +575,7 @@ class Printer:
         else:
             rc = self.ctype_q(rett)
         self.ret_ctype = rc
+        self.ret_is_ref = (not ret_override and d.get('kind') != 'CXXConstructorDecl' and rett.endswith('&'))
         ps = []
         if self.self_struct:
             ps.append(f'{self.self_struct}* self')
